@@ -176,7 +176,7 @@ def jobs_for(ctx, mult=1, seed_shift=0):
     return jobs
 
 
-def run(ctx, mult=1, seed_shift=0, corpus=True):
+def run(ctx, mult=1, seed_shift=0, corpus=True, release=False):
     info, xerr = regenerate(ctx)
     pre_diffs = []
     if xerr:
@@ -198,7 +198,7 @@ def run(ctx, mult=1, seed_shift=0, corpus=True):
     if drv is None:
         return {"infra_error": "bvdrv_str does not build: " + err[-800:], "oracle_fails": [], "diffs": pre_diffs}
     bins = [("dev", bvh)]
-    if ctx.tier == "thorough":
+    if ctx.tier == "thorough" or release:
         rel, err = build_harness(ctx, release=True)
         if rel:
             bins.append(("rel", rel))
@@ -230,7 +230,8 @@ def summarize(ctx, results):
     alias = ctx.spec.get("oracle_prop")
     for r in results:
         for f in r["fails"]:
-            if alias and f["prop"] == alias and ctx.prop != alias:
+            # the String part of C16: oracle lines are labelled C16; stand-alone runs (./check C16S) re-label them
+            if alias and f["prop"] in (alias, alias + "S") and ctx.prop in (alias, alias + "S") and f["prop"] != ctx.prop:
                 f = dict(f)
                 f["prop"] = ctx.prop
             fails.append(f)
@@ -347,9 +348,10 @@ def diff_context(ctx, d, run):
 
 
 def search(ctx, run, proof):
-    """more seeds, same generators, looking for an oracle failure of this property"""
+    """more seeds, same generators, both build profiles (overflow checks / debug assertions on and
+    off: F7-like defects only show in release), looking for an oracle failure of this property"""
     for shift in range(1, 4):
-        r = globals()["run"](ctx, mult=3, seed_shift=shift, corpus=False)
+        r = globals()["run"](ctx, mult=3, seed_shift=shift, corpus=True, release=True)
         mine = [f for f in r.get("oracle_fails", []) if f["prop"] == ctx.prop and not common.match_known(ctx.prop, f)]
         if mine:
             f = dict(mine[0])
@@ -372,7 +374,7 @@ def replay(ctx, path):
     bad = 0
     for f in r["fails"]:
         print(f"ORACLE {f['prop']} {f['name']} {f['detail']}")
-        if f["prop"] == ctx.prop or (alias and f["prop"] == alias):
+        if f["prop"] == ctx.prop or (alias and f["prop"] in (alias, alias + "S")):
             bad = 1
     for d in project(ctx, r["diffs"]):
         print(d["text"])
